@@ -3,7 +3,7 @@
    regular-expression engine does (backtracking from position 0, ".*" greedy, first success
    wins) and [is_match] what Regex::is_match reports (the match found must span the whole string);
    [fn] is fnmatch on that sequence: does SOME way of matching the whole string exist. *)
-Require Import GlobEngine GlobBT Glob GlobSpec GlobParse.
+Require Import GlobEngine GlobBT Glob GlobSpec GlobParse PathModel Paths PathsProofs.
 From Coq Require Import List Arith Bool.
 Import ListNotations.
 
@@ -69,4 +69,26 @@ Example C12_witness :
   glob_match false [97; 92] [97; 92] = 0 /\
   glob_match true [70; 111; 42] [102; 79; 79] = 1 /\
   glob_text [94; 102; 46; 36] = Some (Some [92; 94; 102; 92; 46; 92; 36]).
+Proof. vm_compute. repeat split. Qed.
+
+(* subject selection for -name/-iname (name.rs): the last component of the path as spelled.  Below a starting
+   point that is the entry's own name; trailing slashes are ignored; the subject never contains a slash except
+   that it is "/" for the root directory.  -path uses the whole path (C18 fixes its spelling) and -lname the
+   link text where the link itself is the entry (C13_lname_only_unresolved). *)
+Theorem C12_name_subject_below : forall base n, PathsProofs.plainname n -> Paths.name_subject (base ++ PathModel.SL :: n) = n.
+Proof. exact PathsProofs.name_subject_below. Qed.
+Print Assumptions C12_name_subject_below.
+
+Theorem C12_name_subject_no_slash : forall p, Paths.name_subject p = [PathModel.SL] \/ ~ In PathModel.SL (Paths.name_subject p).
+Proof. exact PathsProofs.name_subject_no_slash. Qed.
+Print Assumptions C12_name_subject_no_slash.
+
+Theorem C12_name_subject_trailing_slash : forall s, Paths.trim_end_sl s <> [] ->
+  Paths.name_subject (s ++ [PathModel.SL]) = Paths.name_subject s.
+Proof. exact PathsProofs.name_subject_trailing_slash. Qed.
+Print Assumptions C12_name_subject_trailing_slash.
+
+Example C12_name_subject_witness :   (* "./" -> "." ; "d/.." -> ".." ; "//" -> "/" ; "./d/./" -> "." ; "a/bc" -> "bc" *)
+  Paths.name_subject [46; 47] = [46] /\ Paths.name_subject [100; 47; 46; 46] = [46; 46] /\ Paths.name_subject [47; 47] = [47] /\
+  Paths.name_subject [46; 47; 100; 47; 46; 47] = [46] /\ Paths.name_subject [97; 47; 98; 99] = [98; 99].
 Proof. vm_compute. repeat split. Qed.
